@@ -92,6 +92,29 @@ class EventSelectionMethod(
         """
         return IntersectionEventSelectionMethod(self, other)
 
+    def _check_shg_mgr(self, shg_mgr):
+        """Checks if the given SourceHypoGroupManager instance can be used by
+        this event selection method, without changing anything. It is called
+        by :meth:`change_shg_mgr` before the event selection method is changed.
+
+        Parameters
+        ----------
+        shg_mgr : instance of SourceHypoGroupManager | None
+            The SourceHypoGroupManager instance to check.
+
+        Raises
+        ------
+        TypeError
+            If ``shg_mgr`` is neither ``None`` nor an instance of
+            SourceHypoGroupManager.
+        """
+        if shg_mgr is not None:
+            if not isinstance(shg_mgr, SourceHypoGroupManager):
+                raise TypeError(
+                    'The shg_mgr argument must be None or an instance of '
+                    'SourceHypoGroupManager! '
+                    f'Its current type is {classname(shg_mgr)}.')
+
     def change_shg_mgr(self, shg_mgr):
         """Changes the SourceHypoGroupManager instance of the event selection
         method. This will also recreate the internal source numpy record array.
@@ -106,12 +129,7 @@ class EventSelectionMethod(
         """
         # Check the argument before changing anything, so that a rejected call
         # leaves the event selection method as it was.
-        if shg_mgr is not None:
-            if not isinstance(shg_mgr, SourceHypoGroupManager):
-                raise TypeError(
-                    'The shg_mgr argument must be None or an instance of '
-                    'SourceHypoGroupManager! '
-                    f'Its current type is {classname(shg_mgr)}.')
+        self._check_shg_mgr(shg_mgr)
 
         self._shg_mgr = shg_mgr
         self._src_arr = None
@@ -272,6 +290,13 @@ class IntersectionEventSelectionMethod(
                 f'Its current type is {classname(method)}.')
         self._evt_sel_method2 = method
 
+    def _check_shg_mgr(self, shg_mgr):
+        """Checks if the given SourceHypoGroupManager instance can be used by
+        both event selection methods, without changing anything.
+        """
+        self._evt_sel_method1._check_shg_mgr(shg_mgr)
+        self._evt_sel_method2._check_shg_mgr(shg_mgr)
+
     def change_shg_mgr(self, shg_mgr):
         """Changes the SourceHypoGroupManager instance of the event selection
         method. This will call the ``change_shg_mgr`` of the individual event
@@ -285,6 +310,10 @@ class IntersectionEventSelectionMethod(
             It can be ``None`` if the event selection method does not depend on
             the sources.
         """
+        # Check the argument with both event selection methods before changing
+        # one of them, so that a rejected call leaves both as they were.
+        self._check_shg_mgr(shg_mgr)
+
         self._evt_sel_method1.change_shg_mgr(shg_mgr=shg_mgr)
         self._evt_sel_method2.change_shg_mgr(shg_mgr=shg_mgr)
 
@@ -1017,8 +1046,19 @@ class PsiFuncEventSelectionMethod(
             The new SourceHypoGroupManager instance, that should be used for
             this event selection method.
         """
-        # Check the number of sources before changing anything, so that a
-        # rejected call leaves the event selection method as it was.
+        # The number of sources is checked by the _check_shg_mgr method, which
+        # is called before anything is changed, so that a rejected call leaves
+        # the event selection method as it was.
+        super().change_shg_mgr(
+            shg_mgr=shg_mgr)
+
+    def _check_shg_mgr(self, shg_mgr):
+        """Checks if the given SourceHypoGroupManager instance can be used by
+        this event selection method, without changing anything. As for the
+        construction, only a single source is supported.
+        """
+        super()._check_shg_mgr(shg_mgr)
+
         if isinstance(shg_mgr, SourceHypoGroupManager):
             n_sources = shg_mgr.n_sources
             if n_sources != 1:
@@ -1026,9 +1066,6 @@ class PsiFuncEventSelectionMethod(
                     'The `PsiFuncEventSelectionMethod.select_events` currently '
                     'supports only a single source. It was called with '
                     f'{n_sources} sources.')
-
-        super().change_shg_mgr(
-            shg_mgr=shg_mgr)
 
     @property
     def psi_name(self):
